@@ -338,13 +338,15 @@ func VerifTrav_RelistedInFlight() {
 // distance and including themselves (so a reply routinely names nodes that were already queried, or
 // are being queried, ahead of ones not yet known): one or two seeds, Alpha 1..2, every completion
 // order. The result is exactly the K closest nodes.
-func VerifTrav_HonestSorted() {
-	const count, k = 4, 3
+func VerifTrav_HonestSorted() { verifHonestSorted(4) }
+
+func verifHonestSorted(count int) {
+	const k = 3
 	n := verifNewNet(verifTarget, count)
 	for i := range n.nodes {
 		n.nodes[i].neighbours = []int{0, 1, 2} // the true K closest, itself included where it is one
 	}
-	seeds := [][]int{{0}, {3}, {0, 2}, {3, 1}}[verifChoice(0, 3)]
+	seeds := [][]int{{0}, {count - 1}, {0, 2}, {count - 1, 1}}[verifChoice(0, 3)]
 	n.run(verifChoice(1, 2), k, seeds, true)
 	verifReach("end")
 }
@@ -545,8 +547,10 @@ func VerifTrav_StopCancelsInFlight() {
 // contact is farther than its farthest member (or of unknown ID); a filtered address is never queried.
 // No preemption: without the run loop being preempted, a stalled report with a queryable contact in
 // the frontier is not the hand-off race recorded as a known finding.
-func VerifTrav_LateAdd() {
-	const count, k = 4, 2
+func VerifTrav_LateAdd()  { verifLateAdd(4, 2) }
+func VerifTrav_LateAdd5() { verifLateAdd(5, 3) }
+
+func verifLateAdd(count, k int) {
 	n := verifNewNet(verifTarget, count)
 	n.staleLabel = "C03: the lookup reports stalled although a contact handed to it after an earlier stall is unqueried and would be queried"
 	if f := verifChoice(-1, count-1); f >= 0 {
@@ -554,7 +558,7 @@ func VerifTrav_LateAdd() {
 	}
 	op := Start(OperationInput{Target: n.target, Alpha: 1, K: k, DoQuery: n.doQuery, NodeFilter: n.nodeFilter,
 		DataFilter: func(d any) bool { _, ok := d.(string); return ok }})
-	first := verifChoice(1, 1<<count-2)
+	first := verifChoice(1, 1<<uint(count)-2)
 	ids1, ids2 := verifNondetBool(), verifNondetBool()
 	for i := 0; i < count; i++ {
 		if first>>uint(i)&1 != 0 {
